@@ -16,7 +16,7 @@ META = {
                    "result pushed under key p with the current file name, guarded only by non-emptiness. R03.return: the accumulator is returned. "
                    "R03.siblings: the three categories have the same shape.",
     "assumptions": ["what fs::read_dir lists is not modelled", "HashMap/Vec API contracts (entry/or_insert/push/append) are trusted"],
-    "floors": {"R03.merge": 6, "R03.recurse": 3, "R03.perfile": 3, "R03.return": 3, "R03.loops": 3},
+    "floors": {"R03.merge": 6, "R03.recurse": 3, "R03.perfile": 3, "R03.return": 3, "R03.loops": 3, "R03.eligible": 1},
 }
 
 READS = ("::len", "::get", "::contains_key", "::iter", "::keys", "::values", "::is_empty", "::clone")
@@ -36,6 +36,10 @@ def entry_of(t, acc):
 
 def run(ctx, crate):
     obs = []
+    # "no eligible file is dropped": which files are eligible is C16's rule; a walker whose test of the file name differs from it drops files
+    from rules import depend
+    obs.append(depend.inherited(ctx, crate, "R03.eligible", "analyze_dir x3", "exactly the eligible files are analysed (C16's obligations on the file-name test)",
+                                "C16", lambda o: o.rule in ("R16.filter", "R16.siblings"), example="a source file named `.sol`, `t.sol` or `A.T.sol` in a nested directory"))
     shapes = {}
     for w in dirwalk.walks(crate):
         if not w.ok:
